@@ -192,8 +192,15 @@ def contract(key, **kw):
     return c
 
 
-def ghost_var(name, ty):
+MONOTONE = set()   # ghost counters that only ever grow (the random tape position): any call may advance them
+
+
+def ghost_var(name, ty, monotone=False):
+    """`monotone`: an integer ghost that is only ever advanced (the position on the random tape): wherever it is
+    havoced (a callee lists it under modifies_ghost, a loop body may touch it) the new value is >= the old one."""
     GHOSTS[name] = ty
+    if monotone:
+        MONOTONE.add(name)
 
 
 def effect(key, note=""):
